@@ -82,7 +82,7 @@ theorem FV.direct {m x : M} (h : FV p m x) {rows : List Row} (hr : ∀ r ∈ row
 theorem FV.writeGeneric {m x : M} (hpm : Minor p) (h : FV p m x) (cfg : Cfg) (t r : Str) : FV p m (writeGeneric cfg x t r) := by
   unfold Machine.writeGeneric
   split
-  · exact h
+  · exact h.of_tl rfl rfl
   · refine (h.direct (rows := _) ?_).of_tl rfl rfl
     intro row hrow
     rcases List.mem_append.mp hrow with h1 | h1
